@@ -74,7 +74,9 @@ def run(idx, rep, tier):
         rep.decide(okc, "buffers", "arnoldi:requested-cap", "buffers are sized by the requested iteration cap (extra rows/columns stay zero)" if okc else
                    "buffers are not sized by the requested cap", detail="" if okc else "cap", locs=[idx.loc(arnoldi.module, arnoldi.node)])
     # ---- body: sub-diagonal = norm; normalisation floor depends on tol
-    body = next((g for g in fact.nested.values() if g.name.startswith("body")), None)
+    # the loop body is whatever function is handed to the loop runner as body_fun (not recognised by its name)
+    _l = [l_ for l_ in lp.find_loops(idx, fact) if l_.kind != "for"]
+    body = _l[0].body if _l and not isinstance(_l[0].body, ast.Lambda) else None
     if body is None:
         rep.missing_anchor("loop body of arnoldi_fact")
     else:
@@ -152,7 +154,8 @@ def run(idx, rep, tier):
     from sa.krylov import breakdown_stops
     _loops = lp.find_loops(idx, fact)
     _cert = lp.cap_certificate(idx, _loops[0]) if _loops else {"ok": None}
-    breakdown_stops(idx, rep, fact, "breakdown-stops", f"{fact.short}:cond", _cert.get("counter_slot") if _cert.get("ok") is True else None)
+    breakdown_stops(idx, rep, fact, "breakdown-stops", f"{fact.short}:cond", _cert.get("counter_slot") if _cert.get("ok") is True else None,
+                    cond=_loops[0].cond if _loops and not isinstance(_loops[0].cond, ast.Lambda) else None)
     # ---- HOMOG in the scale of the operator: floors inside the factorisation loop must scale with what they guard
     from sa.homog import krylov_floor_obligations
     krylov_floor_obligations(idx, rep, fact, init, "scale-floor")
